@@ -145,6 +145,44 @@ func C13(p *engine.Prog, r *engine.Report) {
 		"tree": "storage handle, re-pointed only by SwitchToPreliminary — not cached data",
 	}, "what a rejected or abandoned block wrote into this cache is seen by the next block evaluated on the same state object")
 	r.Floor("C13-R7", 18, "20 StateDB cache fields + 2 IdentityStateDB on the pinned tree")
+	// ---------------- R8: the view's validator cache belongs to the view (shared with C10); a key deleted
+	// on the view masks the base entry in range iteration exactly as it does in point reads
+	importRules(p, r, "C10", map[string]string{"C10-R6": "C13-R8"})
+	for _, x := range []struct{ pkg, fn string }{{"core/state", "StateDB.IterateContractStore"}, {"vm/env", "EnvImp.Iterate"}} {
+		f, _ := p.Func(x.pkg, x.fn)
+		if f == nil {
+			r.Und("C13-R8", x.fn+"|masking set", "", "function not found")
+			continue
+		}
+		r.Fn(engine.FuncName(f))
+		n := 0
+		for _, b := range f.Blocks {
+			for _, ins := range b.Instrs {
+				mu, ok := ins.(*ssa.MapUpdate)
+				if !ok {
+					continue
+				}
+				mt, isM := mu.Map.Type().Underlying().(*types.Map)
+				if !isM {
+					continue
+				}
+				if st, isS := mt.Elem().Underlying().(*types.Struct); !isS || st.NumFields() != 0 {
+					continue
+				}
+				n++
+				bad := ""
+				for _, c := range controlSig(b) {
+					if strings.Contains(c, ".removed") {
+						bad = c
+					}
+				}
+				r.Check(bad == "", "C13-R8", uniq(r, x.fn+"|a buffered key masks the base entry whether it is a write or a delete"), p.InstrPos(mu), "recorded unconditionally", "the key is recorded as visited only under {"+bad+"}: a key deleted on the view is not masked, the range iteration returns the base value that point reads on the same view no longer see")
+			}
+		}
+		if n == 0 {
+			r.Und("C13-R8", x.fn+"|masking set", p.Pos(f.Pos()), "no set of visited keys found")
+		}
+	}
 
 }
 
